@@ -147,10 +147,16 @@ def indent(src: str, n: int = 4) -> str:
     return "".join((" " * n + ln if ln.strip() else ln) for ln in src.splitlines(True))
 
 
+# invariant type variables with an upper bound: what the class header shows of the bound decides the markers of the class
+# (the tool writes an invariant type parameter without its bound: nothing flagged is shown, in the header or in the methods)
+INV_BOUND_MARKS = {"TvInvPair": set(), "TvInvSet": set(), "TvInvMulti": set()}
+
+
 def build_module(rng, gated: set, idx: int, n_decls: int):
     lines = ["from __future__ import annotations\n\nfrom typing import Generic, TypeVar\n\n"
              'TvPair = TypeVar("TvPair", bound=tuple[int, str], covariant=True)\nTvSet = TypeVar("TvSet", bound=set[int], contravariant=True)\n'
              'TvPlain = TypeVar("TvPlain")\nTvChoice = TypeVar("TvChoice", set[int], list[int])\nTvBound = TypeVar("TvBound", bound=int, covariant=True)\n'
+             'TvInvPair = TypeVar("TvInvPair", bound=tuple[int, str])\nTvInvSet = TypeVar("TvInvSet", bound=set[int])\nTvInvMulti = TypeVar("TvInvMulti", bound=list[int, str])\n'
              "\n\ndef _untyped_source():\n    ...\n\n\nclass Base0:\n    pass\n\n\nclass Base1:\n    pass\n\n\nclass Base2:\n    pass\n\n\n"
              "class _Mix:\n    def mixed_in(self, a: int) -> int: ...\n\n    def mixed_untyped(self, b): ...\n\n\n"]
     gt = {}  # declaration path -> expected marker ids
@@ -178,11 +184,18 @@ def build_module(rng, gated: set, idx: int, n_decls: int):
                 gt[f"{cname}/mixed_in"] = set()
                 gt[f"{cname}/mixed_untyped"] = {"param-untyped", "result-missing"}
             # class-level type parameters: flagged types in a bound / in value constraints belong to the class header
-            gen = rng.choice([None, None, None, ("TvPair", {"tuple"}), ("TvSet", {"set"}), ("TvPlain", set()), ("TvChoice", {"set"}), ("TvBound", set())])
+            gen = rng.choice([None, None, None, ("TvPair", {"tuple"}), ("TvSet", {"set"}), ("TvPlain", set()), ("TvChoice", {"set"}), ("TvBound", set()),
+                              ("TvInvPair", INV_BOUND_MARKS["TvInvPair"]), ("TvInvSet", INV_BOUND_MARKS["TvInvSet"]), ("TvInvMulti", INV_BOUND_MARKS["TvInvMulti"])])
             if gen is not None:
                 bases.append(f"Generic[{gen[0]}]")
                 cmarks |= gen[1]
             body = []
+            if gen is not None and gen[0] in (*INV_BOUND_MARKS, "TvPlain") and rng.random() < 0.8:
+                # methods that take / give the class's own type variable: the variable is declared by the class, whatever its
+                # bound contains is the class header's matter
+                body.append(f"def takes_tv{j}(self, item: {gen[0]}, n: int = 0) -> None: ...\n\ndef gives_tv{j}(self) -> {gen[0]}: ...\n\n")
+                gt[f"{cname}/takes_tv{j}"] = set()
+                gt[f"{cname}/gives_tv{j}"] = set()
             # class attributes
             for a in range(rng.randint(0, 3)):
                 an = f"ca{j}_{a}"
